@@ -26,6 +26,8 @@ CONSTANTS
     ClockScope,  \* "process" (pinned code: the chain reads the process-wide contract clock) | "restored_on_entry"
     Fractional,  \* BOOLEAN: the action space trades fractions of a contract (TRUE) or whole lots only
     Measure,     \* "weight": actions are target weights | "lots": actions are target numbers of contracts
+    Relative,    \* BOOLEAN: a user-defined space whose actions are CHANGES of the portfolio weights: the target is the
+                 \* weights of the account as it stands when the decision is executed, plus the action
     RuinStep     \* "raise" (pinned code) | "done" (the property)
 
 \* gnow is the process-wide contract clock (AbstractContract.now): every notification of ANY environment of the
@@ -145,7 +147,14 @@ StepF(tgt) ==
         \* the clock the chain is resolved with
         lclk == IF ClockScope = "process" THEN s1.gnow ELSE now1
         chainOk == "CH" \notin DOMAIN due \/ LeadOk(lclk)
-        req == [alloc |-> IF chainOk THEN Resolved(due, lclk) ELSE <<>>, measure |-> Measure, thr |-> Thr,
+        \* weight-change spaces read the account after the latent quotes have been applied (holdings_weights marks it)
+        vrel == IF Relative THEN ValueF(s1.st, TRUE) ELSE [out |-> "ok", st |-> s1.st, nlv |-> One]
+        relOk == vrel.out = "ok"
+        talloc == IF ~chainOk \/ ~relOk THEN <<>>
+                  ELSE IF Relative
+                  THEN [c \in C |-> Add(Div(Notional(vrel.st, c), vrel.nlv), IF c \in DOMAIN due THEN due[c] ELSE Zero)]
+                  ELSE Resolved(due, lclk)
+        req == [alloc |-> talloc, measure |-> Measure, thr |-> Thr,
                 fractional |-> Fractional, absolute |-> TRUE]
         r   == RebalanceF(s1.st, req, AccrualTime(now1))
         executed == r.out = "ok"
@@ -168,7 +177,7 @@ StepF(tgt) ==
         e3  == [e3a EXCEPT !.done = e3a.done \/ brokeNow]
         v   == ValueF(s2.st, TRUE)                 \* the reward values the account after the step's market events
         ruin == v.out = "broke"
-        failed == ~chainOk \/ r.out = "error" \/ v.out = "error"
+        failed == ~chainOk \/ ~relOk \/ r.out = "error" \/ v.out = "error"
         raises == ~failed /\ ruin /\ RuinStep = "raise"      \* pinned code: EndOfEpisodeError escapes from the reward
         out == IF failed THEN "error" ELSE IF raises THEN "broke" ELSE "ok"
         dn  == IF failed THEN FALSE ELSE IF raises THEN e3.done ELSE (e3.done \/ ruin)
